@@ -171,9 +171,9 @@ func defaultBits(t *rapid.T, kind string, nenum int) uint64 {
 	case "enum":
 		return uint64(rapid.IntRange(0, nenum-1).Draw(t, "edef"))
 	case "float32":
-		return uint64(math.Float32bits(rapid.SampledFrom([]float32{1, -1, 3.25, -0.5, 1e30, float32(math.Inf(1))}).Draw(t, "f32")))
+		return uint64(math.Float32bits(rapid.SampledFrom([]float32{1, -1, 3.25, -0.5, 1e30, float32(math.Inf(1)), float32(math.Copysign(0, -1)), float32(math.NaN())}).Draw(t, "f32")))
 	case "float64":
-		return math.Float64bits(rapid.SampledFrom([]float64{1, -1, 3.25, -0.5, 1e300, math.Inf(-1)}).Draw(t, "f64"))
+		return math.Float64bits(rapid.SampledFrom([]float64{1, -1, 3.25, -0.5, 1e300, math.Inf(-1), math.Copysign(0, -1), math.NaN()}).Draw(t, "f64"))
 	}
 	m := uint64(1)<<uint(bits) - 1
 	if bits == 64 {
